@@ -237,6 +237,22 @@ def endtoend(chk):
         if list(co) != want:
             chk.violation("oracle", "selector %r delivered %s, the stated filter gives %s" % (csel, str(list(co))[:120], str(want)[:120]),
                           {"selector": csel, "args": [a0, n, k, c], "got": list(co), "want": want})
+    # ---- equality conditions on values that only LOOK alike to a hash table (hash(-1) == hash(-2), hash(0) ==
+    # hash(2**61 - 1), 1 == True == 1.0): each selector filters by its own value, whichever was compiled first
+    for v1, v2 in ((-1, -2), (-2, -1), (0, 2 ** 61 - 1), (2 ** 61 - 1, 0), (1, 2), (1, 3)):
+        got = []
+        for v in (v1, v2):
+            with ptera.probing("f(c=%d) > x" % v, env=env).values() as evs:
+                mod.f(2, 1, v1)
+                mod.f(2, 1, v2)
+            got.append(list(evs))
+        want = [[{"c": v, "x": v}, {"c": v, "x": v}, {"c": v, "x": 1 + v}] for v in (v1, v2)]
+        chk.count(("eq-pair", v1, v2), nontrivial=True)
+        chk.dist("e2e:equality on hash-alike values")
+        if got != want:
+            chk.violation("oracle", "selectors f(c=%d) > x and then f(c=%d) > x over the calls f(2, 1, %d), f(2, 1, %d): "
+                          "delivered %s, the stated filter gives %s" % (v1, v2, v1, v2, str(got)[:160], str(want)[:160]),
+                          {"selectors": ["f(c=%d) > x" % v1, "f(c=%d) > x" % v2], "got": got, "want": want})
     # ---- cumulative probes: a capture holds every value the variable took; the record is delivered iff EVERY one
     # of them satisfies the condition
     for (ptxt, pfn) in preds[:max(8, len(preds) // 4)] + [("=%d" % v, (lambda w, v=v: w == v)) for v in (0, 1, 2)]:
